@@ -206,11 +206,13 @@ fn blocked_wake_case(nblocked: usize) {
     kani::cover!(available >= nblocked, "room for all");
 }
 
+//@waker_stubs
 #[kani::proof]
 #[kani::unwind(4)] // mem::swap of a Vec is a 3-iteration chunk loop in core
 fn c03_blocked_wake_1() {
     blocked_wake_case(1);
 }
+//@waker_stubs
 #[kani::proof]
 #[kani::unwind(4)] // mem::swap of a Vec is a 3-iteration chunk loop in core
 fn c03_blocked_wake_2() {
